@@ -236,8 +236,9 @@ class WSStream:
                 )
                 await self.app_put({"type": "websocket.connect"})
         elif isinstance(event, (Body, Data)) and not self.handshake.accepted:
-            await self._send_error_response(400)
+            # Closed first, so that the app cannot race a response of its own
             self.closed = True
+            await self._send_error_response(400)
         elif isinstance(event, (Body, Data)):
             self.connection.receive_data(event.data)
             await self._handle_events()
